@@ -16,7 +16,7 @@
  *  --large   scripted operation sequences over large key sets (hundreds / thousands of keys,
  *            long names, a 1 MB value) with the same observers.
  *
- * Work is done in forked children; a sanitizer abort (or a hang) in a child is a *finding* attributed to
+ * Work is done in forked children; a sanitizer abort (or a call that spins: CPU-time watchdog) in a child is a *finding* attributed to
  * the exact (state, operation) or (string, mode, call) in progress, and the search goes on after it.
  * An operation instance that crashed QK times is quarantined (skipped and counted) so that one defect
  * cannot cost millions of process deaths.
@@ -38,6 +38,8 @@
 #include <stdlib.h>
 #include <string.h>
 #include <sys/mman.h>
+#include <sys/prctl.h>
+#include <sys/resource.h>
 #include <sys/stat.h>
 #include <sys/wait.h>
 #include <time.h>
@@ -78,6 +80,21 @@ static size_t heap_bytes(void)
 #else
     return 0;
 #endif
+}
+
+/* Watchdog in CPU time, not wall-clock time (the machine may be heavily loaded): the process gets SIGXCPU
+   if it burns more than s further CPU seconds before the next call.  Nothing here can block, so a call that
+   does not return is a call that spins. */
+static void watchdog(int s)
+{
+    struct rusage ru;
+    struct rlimit rl;
+    if (getrusage(RUSAGE_SELF, &ru) != 0 || getrlimit(RLIMIT_CPU, &rl) != 0)
+        return;
+    rl.rlim_cur = (rlim_t)(ru.ru_utime.tv_sec + ru.ru_stime.tv_sec + 2 + s);
+    if (rl.rlim_max != RLIM_INFINITY && rl.rlim_cur > rl.rlim_max)
+        rl.rlim_cur = rl.rlim_max;
+    setrlimit(RLIMIT_CPU, &rl);
 }
 
 static void die(const char *fmt, ...)
@@ -404,6 +421,14 @@ static void mismatch(struct octx *cx, const char *observer, const char *fmt, ...
                 cx->after, detail, cx->replay);
 }
 
+/* library call in progress in a map search (SL->stage), named in the signature of a process death */
+enum { MC_IDLE, MC_REBUILD, MC_APPLY, MC_SIZE, MC_EXISTS, MC_GET, MC_TYPED_GET, MC_FOREACH, MC_EQUAL, MC_DESTROY, MC_N };
+static const char *const MC_NAME[MC_N] = {
+    "idle", "history-replay", "operation", "xcm_attr_map_size", "xcm_attr_map_exists", "xcm_attr_map_get",
+    "xcm_attr_map_get_<type>", "xcm_attr_map_foreach", "xcm_attr_map_equal", "xcm_attr_map_destroy"
+};
+#define MCALL(x) (SL->stage = (x))
+
 #define OBS(cx, cond, observer, ...) do {                 \
         SL->c[C_OBS]++;                                    \
         if (!(cond))                                       \
@@ -447,10 +472,12 @@ static void observe_key(const struct xcm_attr_map *m, const struct model *md, co
     const struct ment *e = m_find(md, name);
     bool has = e != NULL;
 
+    MCALL(MC_EXISTS);
     OBS(cx, xcm_attr_map_exists(m, name) == has, "exists", "%s: exists(\"%s\") != %d", tag, name, has);
 
     enum xcm_attr_type t = (enum xcm_attr_type)99;
     size_t l = (size_t)-7;
+    MCALL(MC_GET);
     const void *p = xcm_attr_map_get(m, name, &t, &l);
     const void *p2 = xcm_attr_map_get(m, name, NULL, NULL);
     OBS(cx, (p != NULL) == has, "get-presence", "%s: get(\"%s\") %s but the model %s it", tag, name,
@@ -467,6 +494,7 @@ static void observe_key(const struct xcm_attr_map *m, const struct model *md, co
     }
 
     /* the five typed getters: a value iff the type matches */
+    MCALL(MC_TYPED_GET);
     const void *tp[5] = {
         xcm_attr_map_get_bool(m, name), xcm_attr_map_get_int64(m, name),
         xcm_attr_map_get_double(m, name), xcm_attr_map_get_str(m, name),
@@ -496,6 +524,7 @@ static void observe_map(const struct xcm_attr_map *m, const struct model *md,
                         const char *const *key_probes, int nkey_probes, const char *tag,
                         struct octx *cx)
 {
+    MCALL(MC_SIZE);
     size_t sz = xcm_attr_map_size(m);
     OBS(cx, sz == md->n, "size", "%s: size %zu, model %zu", tag, sz, md->n);
 
@@ -515,6 +544,7 @@ static void observe_map(const struct xcm_attr_map *m, const struct model *md,
     struct collector c = { .cap = md->n + 8 };
     c.v = xmalloc(c.cap * sizeof *c.v);
     c.cookie_ok = &c;
+    MCALL(MC_FOREACH);
     xcm_attr_map_foreach(m, collect_cb, &c);
     OBS(cx, !c.cookie_bad, "foreach-user-pointer", "%s: foreach did not pass the user pointer through", tag);
     OBS(cx, c.n == md->n, "foreach-count", "%s: foreach visited %zu entries, model has %zu", tag, c.n, md->n);
@@ -538,6 +568,7 @@ static void observe_map(const struct xcm_attr_map *m, const struct model *md,
             "%s: foreach visited \"%s\" which the model does not have", tag, c.v[j].name);
     free(c.v);
 
+    MCALL(MC_EQUAL);
     OBS(cx, xcm_attr_map_equal(m, m), "equal-reflexive", "%s: equal(m, m) is false", tag);
 }
 
@@ -545,6 +576,7 @@ static void observe_equal(const struct xcm_attr_map *a, const struct model *ma,
                           const struct xcm_attr_map *b, const struct model *mb, struct octx *cx)
 {
     bool want = m_equal(ma, mb);
+    MCALL(MC_EQUAL);
     bool ab = xcm_attr_map_equal(a, b), ba = xcm_attr_map_equal(b, a);
     OBS(cx, ab == want, want ? "equal/impl=false,model=true" : "equal/impl=true,model=false",
         "equal(A,B) = %d but the contents are %s", ab, want ? "equal" : "different");
@@ -682,6 +714,7 @@ static uint32_t impl_map_code(const struct xcm_attr_map *m)
     struct seen buf[MAXKEYS + 4];
     struct collector c = { .v = buf, .cap = MAXKEYS + 4 };
     c.cookie_ok = &c;
+    MCALL(MC_FOREACH);
     xcm_attr_map_foreach(m, collect_cb, &c);
     if (c.n > (size_t)NKEYS)
         return ALIEN;
@@ -913,6 +946,7 @@ struct crashrec {
     int root;
     char report[256];
     uint64_t count;
+    uint64_t ord;          /* position of the example in the search order: the earliest one is kept */
 };
 static struct crashrec CR[MAXCRASH];
 static int NCR;
@@ -979,6 +1013,8 @@ static void report_key(const char *rep, int status, char *key, size_t cap)
     }
 }
 
+static uint64_t CRASH_ORD;       /* set by the caller: where in the search order the dying case sits */
+
 static void record_crash(int w, int status, const char *shape, const char *opname, char rkind,
                          const char *replay, int root)
 {
@@ -997,6 +1033,16 @@ static void record_crash(int w, int status, const char *shape, const char *opnam
         if (strcmp(CR[i].key, key) == 0 && strcmp(CR[i].shape, shape) == 0 &&
             strcmp(CR[i].opname, opname) == 0) {
             CR[i].count++;
+            if (CRASH_ORD < CR[i].ord) {
+                CR[i].ord = CRASH_ORD;
+                snprintf(CR[i].replay, sizeof CR[i].replay, "%s", replay);
+                CR[i].root = root;
+                FILE *g = fopen(CR[i].report, "w");
+                if (g != NULL) {
+                    fwrite(rep, 1, n, g);
+                    fclose(g);
+                }
+            }
             return;
         }
     if (NCR == MAXCRASH)
@@ -1010,6 +1056,7 @@ static void record_crash(int w, int status, const char *shape, const char *opnam
     snprintf(c->replay, sizeof c->replay, "%s", replay);
     c->root = root;
     c->count = 1;
+    c->ord = CRASH_ORD;
     snprintf(c->report, sizeof c->report, "%s/crash-%d.txt", CRASHDIR, NCR);
     f = fopen(c->report, "w");
     if (f != NULL) {
@@ -1034,6 +1081,10 @@ static void rp_spawn(int w, worker_fn work)
     if (rp_pid[w] < 0)
         die("fork failed: %s", strerror(errno));
     if (rp_pid[w] == 0) {
+        /* no orphans: a worker does not outlive its supervisor */
+        prctl(PR_SET_PDEATHSIG, SIGKILL);
+        if (getppid() != SUPERVISOR_PID)
+            _exit(0);
         /* the sanitizer report of this worker goes to a file the supervisor reads after a death */
         char path[256];
         slot_err_path(w, path, sizeof path);
@@ -1167,6 +1218,7 @@ static void fresh_maps(struct xcm_attr_map *M[2])
 /* rebuild state s on fresh objects; false (and "broke") if the replayed canonical form differs */
 static bool rebuild(uint32_t s, const int *hist, int hl, struct xcm_attr_map *M[2])
 {
+    MCALL(MC_REBUILD);
     fresh_maps(M);
     for (int i = 0; i < hl; i++)
         apply_op(&OPS[hist[i]], M, NULL, false);
@@ -1197,6 +1249,7 @@ static uint32_t do_transition(uint32_t s, const int *hist, int hl, int opi, int 
     struct model md[2];
     model_decode(s, md);
 
+    MCALL(MC_APPLY);
     if (!apply_op(o, M, md, true))
         mismatch(&cx, "get-presence", "the value to alias could not be looked up");
     observe_all(M, md, &cx);
@@ -1206,8 +1259,10 @@ static uint32_t do_transition(uint32_t s, const int *hist, int hl, int opi, int 
     OBS(&cx, succ == isucc, "canonical-form", "canonical form of the maps (%u) differs from the model's (%u)",
         isucc, succ);
 
+    MCALL(MC_DESTROY);
     xcm_attr_map_destroy(M[0]);
     xcm_attr_map_destroy(M[1]);
+    MCALL(MC_IDLE);
     m_clear(&md[0]);
     m_clear(&md[1]);
     size_t after = heap_bytes();
@@ -1231,7 +1286,7 @@ static void bfs_worker(int w, uint64_t start_i, int start_op)
         struct model md[2];
         model_decode(s, md);
 
-        alarm(120);
+        watchdog(120);
         SL->pos_major = i;
         if (op0 <= 0) {
             /* the state itself: rebuild once, full observation (also of the initial state) */
@@ -1243,8 +1298,10 @@ static void bfs_worker(int w, uint64_t start_i, int start_op)
             if (!rebuild(s, hist, hl, M))
                 _exit(2);
             observe_all(M, md, &cx);
+            MCALL(MC_DESTROY);
             xcm_attr_map_destroy(M[0]);
             xcm_attr_map_destroy(M[1]);
+            MCALL(MC_IDLE);
             SL->c[C_STATES]++;
             op0 = 0;
         }
@@ -1281,6 +1338,7 @@ static void bfs_on_crash(int w, int status, uint64_t *rm, int *rn)
     int hl = history(s, hist);
     char hs[1000];
 
+    CRASH_ORD = ((uint64_t)LEVEL << 48) | (i << 9) | (uint64_t)(opi + 1);
     if (opi < 0) {
         /* died while rebuilding/observing an already validated history: leave the state unexpanded */
         history_str(hist, hl, -1, hs, sizeof hs);
@@ -1297,7 +1355,11 @@ static void bfs_on_crash(int w, int status, uint64_t *rm, int *rn)
     m_clear(&md[0]);
     m_clear(&md[1]);
     history_str(hist, hl, opi, hs, sizeof hs);
-    record_crash(w, status, op_shape(&OPS[opi]), KIND_NAME[OPS[opi].kind], 'o', hs, -1);
+    int mc = sl->stage;
+    if (mc > MC_APPLY && mc < MC_N)      /* died in an observer (or the final destroy) after the operation */
+        record_crash(w, status, MC_NAME[mc], "observer", 'o', hs, -1);
+    else
+        record_crash(w, status, op_shape(&OPS[opi]), KIND_NAME[OPS[opi].kind], 'o', hs, -1);
     bfs_crashed_transitions++;
     *rm = i;
     *rn = opi + 1;        /* the state simply has no such successor */
@@ -1655,9 +1717,13 @@ struct pout {            /* outcome, for --one-path */
     char printed[600];
 };
 
+static int eval_findings;      /* findings of the evaluation in progress: only the first one is reported */
+
 static void pfinding(const char *s, bool root, const char *clause, const char *shape, const char *fmt, ...)
 {
     char sig[160], detail[500];
+    if (eval_findings++ > 0)
+        return;
     va_list ap;
     va_start(ap, fmt);
     vsnprintf(detail, sizeof detail, fmt, ap);
@@ -1668,14 +1734,42 @@ static void pfinding(const char *s, bool root, const char *clause, const char *s
 
 #define STAGE(x) (SL->stage = (x), SL->c[C_PCALLS]++)
 
+/* the shape of a path input as it appears in crash signatures (and quarantine classes) */
+enum { SHP_NORMAL, SHP_COMPS, SHP_LONG, SHP_N };
+static const char *const SHAPE_NAME[SHP_N] = { "components<=64", "components>64", "len>255" };
+
+static int path_shape(size_t len, const struct ores *o)
+{
+    return len > ATTR_PATH_NAME_MAX ? SHP_LONG : o->ncomps > ATTR_PATH_COMP_MAX ? SHP_COMPS : SHP_NORMAL;
+}
+
+/* An over-limit shape whose inputs killed QK workers in one library call is skipped from then on (and
+   counted): on a tree with the component-count defect every one of the ~10^4 inputs with more than 64
+   components dies, and a process death costs ~10 ms.  Inputs within the limits are never skipped. */
+static bool path_quarantined(int shape)
+{
+    if (SH == NULL || shape == SHP_NORMAL)
+        return false;
+    for (int st = 0; st < ST_N; st++)
+        if (SH->quarantine[shape * ST_N + st] >= QK)
+            return true;
+    return false;
+}
+
 static void eval_path(const char *str, size_t len, bool root, struct ores *o, struct pout *out)
 {
     /* the input lives in a block that ends exactly at its NUL */
     char *buf = exact_dup(str, len + 1);
     oracle(buf, len, root, o);
-    SL->c[C_PEVAL]++;
+    eval_findings = 0;
     if (out)
         out->accepted = false;
+    if (path_quarantined(path_shape(len, o))) {
+        SL->c[C_QSKIP]++;
+        free(buf);
+        return;
+    }
+    SL->c[C_PEVAL]++;
 
     size_t b0 = heap_bytes();
     STAGE(ST_PARSE);
@@ -1719,9 +1813,15 @@ static void eval_path(const char *str, size_t len, bool root, struct ores *o, st
     STAGE(ST_INSPECT);
     size_t nc = attr_path_num_comps(p);
     if (structure_known) {
-        if (nc != (size_t)o->ncomps)
-            pfinding(buf, root, "structure", "component-count", "parsed into %zu components, syntax says %d",
-                     nc, o->ncomps);
+        if (nc != (size_t)o->ncomps) {
+            char got[40];
+            if (nc > 2 * ATTR_PATH_NAME_MAX)
+                snprintf(got, sizeof got, "an impossible number (> %d) of", 2 * ATTR_PATH_NAME_MAX);
+            else
+                snprintf(got, sizeof got, "%zu", nc);
+            pfinding(buf, root, "structure", o->ncomps > ATTR_PATH_COMP_MAX ? "component-count/components>64" :
+                     "component-count", "parsed into %s components, syntax says %d", got, o->ncomps);
+        }
         else
             for (size_t i = 0; i < nc; i++) {
                 const struct attr_pcomp *pc = attr_path_get_comp(p, i);
@@ -1806,6 +1906,49 @@ static void eval_path(const char *str, size_t len, bool root, struct ores *o, st
         pfinding(buf, root, "equal_str", "unparsable-string", "attr_path_equal_str is true for the unparsable \"%s\"",
                  last_rejected[root]);
 
+    /* two near misses built from the recognised component list must NOT be equal to the path: the path
+       without its last component, and the path with the last component altered (key + "x", index + 1) */
+    if (structure_known && o->ncomps >= 1 && o->ncomps <= ATTR_PATH_COMP_MAX && strlen(canon) == l1 &&
+        l1 + 2 <= ATTR_PATH_NAME_MAX) {
+        char near[2][600];
+        bool is_prefix[2] = { false, false };
+        int nnear = 0;
+        const struct ocomp *lc = &o->c[o->ncomps - 1];
+        struct ores *po = xmalloc(sizeof *po);
+        *po = *o;
+        po->ncomps--;
+        if (ocanon(buf, po, root, near[nnear], sizeof near[0]))
+            is_prefix[nnear++] = true;
+        free(po);
+        size_t cl = strlen(canon);
+        if (!lc->is_index) {
+            snprintf(near[nnear++], sizeof near[0], "%sx", canon);
+        } else if (lc->val_known && lc->index < 100000000000000000ULL) {
+            size_t cut = cl;
+            while (cut > 0 && canon[cut - 1] != '[')
+                cut--;
+            if (cut > 0)
+                snprintf(near[nnear++], sizeof near[0], "%.*s%" PRIu64 "]", (int)cut, canon, lc->index + 1);
+        }
+        for (int i = 0; i < nnear; i++) {
+            char *nx = exact_dup(near[i], strlen(near[i]) + 1);
+            STAGE(ST_REPARSE);
+            struct attr_path *q = attr_path_parse(nx, root);
+            if (q != NULL) {
+                STAGE(ST_EQUAL);
+                bool e1 = attr_path_equal(p, q), e2 = attr_path_equal(q, p);
+                STAGE(ST_EQUAL_STR);
+                bool e3 = attr_path_equal_str(p, nx, root);
+                if (e1 || e2 || e3)
+                    pfinding(buf, root, "equal", is_prefix[i] ? "equal-to-own-prefix" : "equal-to-altered-last-component",
+                             "reported equal to the different path \"%s\" (equal=%d/%d equal_str=%d)", nx, e1, e2, e3);
+                STAGE(ST_DESTROY);
+                attr_path_destroy(q);
+            }
+            free(nx);
+        }
+    }
+
     /* (in)equality with the previously accepted path, as decided by the component lists */
     if (prev_path != NULL && structure_known) {
         int want = ocomps_equal(buf, o, prev_str, prev_o);
@@ -1814,10 +1957,15 @@ static void eval_path(const char *str, size_t len, bool root, struct ores *o, st
             bool e1 = attr_path_equal(p, prev_path), e2 = attr_path_equal(prev_path, p);
             STAGE(ST_EQUAL_STR);
             bool e3 = attr_path_equal_str(prev_path, buf, root);
-            if (e1 != (want == 1) || e2 != (want == 1) || e3 != (want == 1))
-                pfinding(buf, root, "equal", want ? "equal-paths-differ" : "different-paths-equal",
-                         "compared with \"%s\": equal=%d/%d equal_str=%d, component lists say %d", prev_str, e1,
-                         e2, e3, want);
+            if ((e1 != (want == 1) || e2 != (want == 1) || e3 != (want == 1)) && eval_findings++ == 0) {
+                /* replay needs the partner: "<partner>\n<partner mode>\n<string>" */
+                char both[700], sig[160];
+                snprintf(both, sizeof both, "%s\n%d\n%s", prev_str, prev_root ? 1 : 0, buf);
+                snprintf(sig, sizeof sig, "C19/path/equal/%s", want ? "equal-paths-differ" : "different-paths-equal");
+                add_finding(sig, 'q', both, root, "path \"%s\" (%s mode) compared with \"%s\": equal=%d/%d "
+                            "equal_str=%d, the component lists say %d", buf, root ? "root" : "relative", prev_str,
+                            e1, e2, e3, want);
+            }
         }
     }
     free(s1x);
@@ -1851,6 +1999,25 @@ static void eval_path(const char *str, size_t len, bool root, struct ores *o, st
         attr_path_destroy(p);
         free(buf);
     }
+    SL->stage = ST_IDLE;
+}
+
+/* give up the comparison partner (end of a worker's range / of a replay), with the same accounting */
+static void flush_prev(void)
+{
+    if (prev_path == NULL)
+        return;
+    eval_findings = 0;
+    SL->stage = ST_DESTROY;
+    size_t before = heap_bytes();
+    attr_path_destroy(prev_path);
+    size_t freed = before - heap_bytes();
+    if (freed != prev_heap)
+        pfinding(prev_str, prev_root, "leak", "parse-destroy", "parse took %zu bytes, destroy gave back %zu",
+                 prev_heap, freed);
+    free(prev_str);
+    prev_path = NULL;
+    prev_str = NULL;
     SL->stage = ST_IDLE;
 }
 
@@ -1968,7 +2135,7 @@ static void path_worker(int w, uint64_t start_idx, int start_mode)
     uint64_t cnt = 0;
     for (uint64_t idx = start_idx; idx < NITEMS && !SH->stop; idx += (uint64_t)W, m0 = 0) {
         if ((cnt++ & 255) == 0)
-            alarm(60);
+            watchdog(60);
         size_t len = gen_input(idx, buf);
         SL->pos_major = idx;
         for (int mode = m0; mode < 2; mode++) {
@@ -1976,6 +2143,7 @@ static void path_worker(int w, uint64_t start_idx, int start_mode)
             eval_path(buf, len, mode == 0, o, NULL);
         }
     }
+    flush_prev();
     free(o);
 }
 
@@ -1989,9 +2157,12 @@ static void path_on_crash(int w, int status, uint64_t *rm, int *rn)
     size_t len = gen_input(idx, buf);
     struct ores *o = xmalloc(sizeof *o);
     oracle(buf, len, mode == 0, o);
-    snprintf(shape, sizeof shape, "%s", len > ATTR_PATH_NAME_MAX ? "len>255" :
-             o->ncomps > ATTR_PATH_COMP_MAX ? "components>64" : "components<=64");
+    int shp = path_shape(len, o);
+    snprintf(shape, sizeof shape, "%s", SHAPE_NAME[shp]);
     free(o);
+    if (stage >= 0 && stage < ST_N)
+        SH->quarantine[shp * ST_N + stage]++;
+    CRASH_ORD = idx * 2 + (uint64_t)mode;
     record_crash(w, status, shape, STAGE_NAME[stage >= 0 && stage < ST_N ? stage : 0], 'p', buf, mode == 0);
     if (mode == 0) {
         *rm = idx;
@@ -2022,8 +2193,9 @@ static int run_paths(void)
            ",\"either_rejected\":%" PRIu64 ",\"accepted_multi_component\":%" PRIu64 ",\"complete\":%s,\"seconds\":%.2f",
            MAXLEN, COUNT_A, NFAM, fam_distinct_beyond_A, COUNT_A + fam_distinct_beyond_A, c[C_PEVAL], 2 * NITEMS,
            c[C_PCALLS], c[C_PACC], c[C_PREJ], c[C_PMUST_ACC], c[C_PMUST_REJ], c[C_PEITHER_ACC], c[C_PEITHER_REJ],
-           c[C_PNONTRIV], (!SH->stop && c[C_PEVAL] == 2 * NITEMS) ? "true" : "false",
+           c[C_PNONTRIV], (!SH->stop && c[C_PEVAL] + c[C_QSKIP] == 2 * NITEMS) ? "true" : "false",
            now_s() - t0);
+    printf(",\"quarantine_skipped\":%" PRIu64, c[C_QSKIP]);
     printf(",\"either_accepted_by_reason\":{");
     for (int k = 0, first = 1; k < 16; k++)
         if (ew[k]) {
@@ -2097,7 +2269,7 @@ static void large_script(int n, int style)
     m_init(&a, true);
     m_init(&b, true);
 
-    SL->stage = 1;
+    SL->pos_minor = 1;
     cx.after = LSTEP[1];
     for (int i = 0; i < n; i++) {
         lname(style, i, name, sizeof name);
@@ -2105,7 +2277,7 @@ static void large_script(int n, int style)
     }
     lobserve(m1, &a, m2, &b, &cx);
 
-    SL->stage = 2;               /* same contents, different insertion order: must be equal */
+    SL->pos_minor = 2;               /* same contents, different insertion order: must be equal */
     cx.after = LSTEP[2];
     int step = n / 2 + 1;
     while (n > 0 && step < n) {
@@ -2122,7 +2294,7 @@ static void large_script(int n, int style)
     }
     lobserve(m1, &a, m2, &b, &cx);
 
-    SL->stage = 3;
+    SL->pos_minor = 3;
     cx.after = LSTEP[3];
     for (int i = 0; i < n; i += 3) {
         lname(style, i, name, sizeof name);
@@ -2130,7 +2302,7 @@ static void large_script(int n, int style)
     }
     lobserve(m1, &a, m2, &b, &cx);
 
-    SL->stage = 4;
+    SL->pos_minor = 4;
     cx.after = LSTEP[4];
     xcm_attr_map_add_all(m2, m1);
     m_add_all(&b, &a);
@@ -2138,7 +2310,7 @@ static void large_script(int n, int style)
     SL->c[C_LOPS] += 2;
     lobserve(m1, &a, m2, &b, &cx);
 
-    SL->stage = 5;
+    SL->pos_minor = 5;
     cx.after = LSTEP[5];
     for (int i = 1; i < n; i += 2) {
         lname(style, i, name, sizeof name);
@@ -2148,7 +2320,7 @@ static void large_script(int n, int style)
     }
     lobserve(m1, &a, m2, &b, &cx);
 
-    SL->stage = 6;               /* emptying a clone must not touch the original */
+    SL->pos_minor = 6;               /* emptying a clone must not touch the original */
     cx.after = LSTEP[6];
     {
         struct xcm_attr_map *m3 = xcm_attr_map_clone(m1);
@@ -2167,7 +2339,7 @@ static void large_script(int n, int style)
         m_clear(&c);
     }
 
-    SL->stage = 7;               /* value pointers into the other map / another entry of the same map */
+    SL->pos_minor = 7;               /* value pointers into the other map / another entry of the same map */
     cx.after = LSTEP[7];
     for (int i = 0; i < n; i++) {
         lname(style, i, name, sizeof name);
@@ -2189,7 +2361,7 @@ static void large_script(int n, int style)
     }
     lobserve(m1, &a, m2, &b, &cx);
 
-    SL->stage = 8;
+    SL->pos_minor = 8;
     cx.after = LSTEP[8];
     {
         size_t big = 1 << 20;
@@ -2209,7 +2381,7 @@ static void large_script(int n, int style)
         m_clear(&c);
     }
 
-    SL->stage = 9;
+    SL->pos_minor = 9;
     cx.after = LSTEP[9];
     xcm_attr_map_destroy(m1);
     xcm_attr_map_destroy(m2);
@@ -2219,14 +2391,14 @@ static void large_script(int n, int style)
     OBS(&cx, after == base, "leak", "large script n=%d style=%d: %zd bytes still allocated after destroy", n,
         style, (ssize_t)(after - base));
     SL->c[C_LDONE]++;
-    SL->stage = 0;
+    SL->pos_minor = 0;
 }
 
 static void large_worker(int w, uint64_t start, int minor)
 {
     (void)minor;
     for (uint64_t i = start; i < (uint64_t)NLARGE && !SH->stop; i += (uint64_t)W) {
-        alarm(300);
+        watchdog(600);
         SL->pos_major = i;
         large_script(LARGE_N[i], LARGE_STYLE[i]);
     }
@@ -2238,7 +2410,8 @@ static void large_on_crash(int w, int status, uint64_t *rm, int *rn)
     uint64_t i = sl->pos_major;
     char rp[80];
     snprintf(rp, sizeof rp, "large:n=%d:style=%d", LARGE_N[i], LARGE_STYLE[i]);
-    int st = sl->stage;
+    int st = sl->pos_minor;
+    CRASH_ORD = i;
     record_crash(w, status, LSTEP[st >= 0 && st < 10 ? st : 0], "large-script", 'o', rp, -1);
     *rm = i + (uint64_t)W;
     *rn = 0;
@@ -2364,11 +2537,20 @@ static int replay_ops(const char *spec)
     return print_solo_findings();
 }
 
+static const char *PARTNER;      /* --partner: a path evaluated first, to become the comparison partner */
+static int PARTNER_ROOT = 1;
+
 static int one_path(const char *str, int rootsel)
 {
     SL = &solo_slot;
     struct ores *o = xmalloc(sizeof *o);
     size_t len = strlen(str);
+    if (PARTNER != NULL) {
+        struct pout out;
+        printf("partner \"%s\", %s mode\n", PARTNER, PARTNER_ROOT ? "root" : "relative");
+        fflush(stdout);
+        eval_path(PARTNER, strlen(PARTNER), PARTNER_ROOT != 0, o, &out);
+    }
     for (int mode = 0; mode < 2; mode++) {
         bool root = mode == 0;
         if (rootsel >= 0 && (rootsel == 1) != root)
@@ -2386,6 +2568,7 @@ static int one_path(const char *str, int rootsel)
         printf("\n");
         fflush(stdout);
     }
+    flush_prev();
     free(o);
     return print_solo_findings();
 }
@@ -2397,7 +2580,7 @@ static int usage(void)
             "       h_map --paths [--maxlen L] [--workers W] [--deadline SECONDS] [--crashdir DIR]\n"
             "       h_map --large [--thorough] [--workers W] [--crashdir DIR]\n"
             "       h_map [--keys K] --replay-ops 'op,op,...' | --replay-ops large:n=N:style=S\n"
-            "       h_map [--root 0|1] --one-path 'string'\n");
+            "       h_map [--root 0|1] [--partner 'string' --partner-root 0|1] --one-path 'string'\n");
     return 2;
 }
 
@@ -2438,6 +2621,10 @@ int main(int argc, char **argv)
             CRASHDIR = argv[++i];
         else if (strcmp(a, "--root") == 0 && more)
             rootsel = atoi(argv[++i]);
+        else if (strcmp(a, "--partner") == 0 && more)
+            PARTNER = argv[++i];
+        else if (strcmp(a, "--partner-root") == 0 && more)
+            PARTNER_ROOT = atoi(argv[++i]);
         else
             return usage();
     }
@@ -2447,6 +2634,8 @@ int main(int argc, char **argv)
         T_END = now_s() + deadline;
     init_values();
 
+    if (mode == M_ROPS || mode == M_OPATH)
+        watchdog(600);
     if (mode == M_ROPS)
         return replay_ops(arg);
     if (mode == M_OPATH)
